@@ -410,7 +410,7 @@ impl Write for Sink {
     }
 }
 
-// @harness writer_finish_wrapper bounded bound="buffer of 12 header bytes + 2 data bytes" props=C15,C02 doc="recording byte step (kani::stub of encrypt_byte): ZipCryptoWriter::write only buffers; finish(crc) feeds the 14 buffered bytes, with byte 11 replaced by crc>>24, in order, once each, to the byte step and the sink (accepting either everything or at most 5 bytes per call) receives exactly the 14 results in order and is flushed"
+// @harness writer_finish_wrapper bounded tier=thorough bound="buffer of 12 header bytes + 2 data bytes" props=C15,C02 doc="recording byte step (kani::stub of encrypt_byte): ZipCryptoWriter::write only buffers; finish(crc) feeds the 14 buffered bytes, with byte 11 replaced by crc>>24, in order, once each, to the byte step and the sink (accepting either everything or at most 5 bytes per call) receives exactly the 14 results in order and is flushed"
 #[kani::proof]
 #[kani::unwind(16)]
 #[kani::stub(ZipCryptoKeys::encrypt_byte, rec_step)]
